@@ -64,7 +64,7 @@ type Dac3Box struct {
 
 // DecodeDac3 - box-specific decode
 func DecodeDac3(hdr BoxHeader, startPos uint64, r io.Reader) (Box, error) {
-	data, err := io.ReadAll(r)
+	data, err := readBoxBody(r, hdr) // Not io.ReadAll(r): r may continue with the following boxes
 	if err != nil {
 		return nil, err
 	}
